@@ -269,13 +269,15 @@ for alg, kd in ((8, KR[0]), (13, KEC[0]), (10, KR[1])):
         rep.violation("impl-vs-spec", f"{kd['id']} is reported as found after its objects were removed from the token (same module object)", {"kind": "lookup-after-removal"})
 
 # symmetric / unknown key types are never used for signing
-for kt in (KeyType.AES, KeyType.DES3):
-    sess = type("S", (), {"sign": lambda self, *a: (_ for _ in ()).throw(AssertionError("token asked to sign with a symmetric key"))})()
-    key = KSKM_P11Key(label="L", key_type=kt, key_class=KeyClass.SECRET, session=sess, privkey_handle=emu.mk_handle(1))
-    r = vlib.run_impl(sign_using_p11, key, b"data", AlgorithmDNSSEC.RSASHA256)
-    count("never-sign-symmetric")
-    if r[0] == "ok" or r[2] == "AssertionError":
-        rep.violation("impl-vs-spec", f"sign_using_p11 used a {kt.name} key", {"key_type": kt.name})
+for kt in [k_ for k_ in KeyType if k_ not in (KeyType.RSA, KeyType.EC)]:          # whatever key types the layer knows besides RSA and EC
+    for alg_, hh_ in ((AlgorithmDNSSEC.RSASHA256, None), (AlgorithmDNSSEC.RSASHA256, True), (AlgorithmDNSSEC.ECDSAP256SHA256, None), (AlgorithmDNSSEC.ECDSAP256SHA256, True), (AlgorithmDNSSEC.RSASHA512, True)):
+        for kc_ in (KeyClass.SECRET, KeyClass.PRIVATE):
+            sess = type("S", (), {"sign": lambda self, *a: (_ for _ in ()).throw(AssertionError("token asked to sign with a symmetric key"))})()
+            key = KSKM_P11Key(label="L", key_type=kt, key_class=kc_, session=sess, privkey_handle=emu.mk_handle(1), hash_using_hsm=hh_)
+            r = vlib.run_impl(sign_using_p11, key, b"data", alg_)
+            count("never-sign-symmetric")
+            if r[0] == "ok" or r[2] == "AssertionError":
+                rep.violation("impl-vs-spec", f"sign_using_p11 asked the token to sign with a {kt.name} key ({alg_.name}, hash_using_hsm={hh_}, class {kc_.name})", {"key_type": kt.name})
 
 # ------------------------------------------------------------------ 3. process environment restored after a module is loaded
 for i in range(30 * SCALE):
